@@ -195,15 +195,19 @@ class FixedTalbot(InverseLaplaceTransform):
         p = self.p
         r = self.r
 
+        # the contour p = delta/tmax was scaled with tmax, so that
+        # exp(p*t) = exp(delta*t/tmax) and dp = d(delta)/tmax
+        scale = self.t/self.tmax
+
         ans = self.ctx.matrix(M,1)
-        ans[0] = self.ctx.exp(delta[0])*fp[0]/2
+        ans[0] = self.ctx.exp(delta[0]*scale)*fp[0]/2
 
         for i in range(1,M):
-            ans[i] = self.ctx.exp(delta[i])*fp[i]*(
+            ans[i] = self.ctx.exp(delta[i]*scale)*fp[i]*(
                 1 + 1j*theta[i]*(1 + self.cot_theta[i]**2) -
                 1j*self.cot_theta[i])
 
-        result = self.ctx.fraction(2,5)*self.ctx.fsum(ans)/self.t
+        result = self.ctx.fraction(2,5)*self.ctx.fsum(ans)/self.tmax
 
         # setting dps back to value when calc_laplace_parameter was
         # called, unless flag is set.
